@@ -193,8 +193,10 @@ Definition layer_out (c : config) (p : params) (xss : list (list Q)) : list Q :=
   map (fun u => unit_out c p u (nth u xss [])) (seq 0 (length (p_scale p))).
 
 (* ---------------------------------------- executable root for the tie only *)
-(* d-th root by a truncated Newton iteration from above (the theorems are
-   about an exact root oracle; see Proofs/KFL.v). *)
+(* d-th root by a truncated Newton iteration from above, precision 2^-64 (the
+   theorems quantify over every root function satisfying root_ok, Proofs/KFL.v:
+   result >= 1, d-th power >= x, 1 at 1; this executable approximation is only
+   used to compare the model with the implementation). *)
 Definition qtrunc (x : Q) : Q := Qfloor (x * inject_Z (2 ^ 64)) # (2 ^ 64).
 Fixpoint newton_root (n d : nat) (a y : Q) : Q :=
   match n with
